@@ -305,23 +305,86 @@ func isPat(x PAT) bool {
 	return ok
 }
 
+// The PSI header accessors are total: on a payload too short for the byte they need they return
+// the zero value; otherwise the byte ISO/IEC 13818-1 puts at pointer_field+1.. (C05/C06).
+func specHdrOff(psi []byte) int { return 1 + int(psi[0]) }
+
 //@ func PointerField(psi []byte) uint8
-//@   props C07 C06
-//@   requires len(psi) >= 1
-//@   ensures result == psi[0]
+//@   props C05 C06 C07
+//@   ensures len(psi) >= 1 ==> result == psi[0]
+//@   ensures len(psi) == 0 ==> result == 0
+//@   modifies nothing
+
+//@ func tableID(psi []byte) uint8
+//@   props C05 C06
+//@   ensures len(psi) >= 1 ==> result == psi[0]
+//@   ensures len(psi) == 0 ==> result == 0
+//@   modifies nothing
+
+//@ func sectionSyntaxIndicator(psi []byte) bool
+//@   props C05 C06
+//@   ensures len(psi) >= 2 ==> result == (psi[1] >= 128)
+//@   ensures len(psi) < 2 ==> !result
 //@   modifies nothing
 
 //@ func sectionLength(psi []byte) uint16
-//@   props C07 C06
-//@   requires len(psi) >= 3
-//@   ensures result == uint16(psi[1]%4)*256+uint16(psi[2])
+//@   props C05 C06 C07
+//@   ensures len(psi) >= 3 ==> result == uint16(psi[1]%4)*256+uint16(psi[2])
+//@   ensures len(psi) < 3 ==> result == 0
+//@   modifies nothing
+
+//@ func TableID(psi []byte) uint8
+//@   props C05 C06
+//@   ensures len(psi) >= 1 && specHdrOff(psi) < len(psi) ==> result == psi[specHdrOff(psi)]
+//@   ensures len(psi) == 0 || specHdrOff(psi) >= len(psi) ==> result == 0
+//@   modifies nothing
+
+//@ func SectionSyntaxIndicator(psi []byte) bool
+//@   props C05 C06
+//@   ensures len(psi) >= 1 && specHdrOff(psi)+1 < len(psi) ==> result == (psi[specHdrOff(psi)+1] >= 128)
+//@   ensures len(psi) == 0 || specHdrOff(psi)+1 >= len(psi) ==> !result
+//@   modifies nothing
+
+//@ func PrivateIndicator(psi []byte) bool
+//@   props C05 C06
+//@   ensures len(psi) >= 1 && specHdrOff(psi)+1 < len(psi) ==> result == ((psi[specHdrOff(psi)+1]/64)%2 == 1)
+//@   ensures len(psi) == 0 || specHdrOff(psi)+1 >= len(psi) ==> !result
 //@   modifies nothing
 
 //@ func SectionLength(psi []byte) uint16
-//@   props C07 C06
-//@   requires len(psi) >= 1 && psi[0] != 255 && (1+int(psi[0]) < len(psi) ==> 4+int(psi[0]) <= len(psi))
-//@   ensures 1+int(psi[0]) >= len(psi) ==> result == 0
-//@   ensures 1+int(psi[0]) < len(psi) ==> result == uint16(psi[2+int(psi[0])]%4)*256+uint16(psi[3+int(psi[0])])
+//@   props C05 C06 C07
+//@   ensures len(psi) >= 1 && specHdrOff(psi)+2 < len(psi) ==> result == uint16(psi[specHdrOff(psi)+1]%4)*256+uint16(psi[specHdrOff(psi)+2])
+//@   ensures len(psi) == 0 || specHdrOff(psi)+2 >= len(psi) ==> result == 0
+//@   modifies nothing
+
+//@ func tableVersionAndCNI(psi []byte) (v uint8, cni bool, err error)
+//@   props C05 C06
+//@   ensures len(psi) < 6 ==> err == gots.ErrShortPayload
+//@   ensures len(psi) >= 6 ==> err == nil && v == (psi[5]/2)%32 && cni == (psi[5]%2 == 1)
+//@   modifies nothing
+
+//@ func TableHeaderFromBytes(data []byte) (th TableHeader, err error)
+//@   props C05 C06
+//@   ensures len(data) < 3 ==> err == gots.ErrShortPayload
+//@   ensures len(data) >= 3 ==> err == nil && th.TableID == data[0] && th.SectionSyntaxIndicator == (data[1] >= 128) && th.PrivateIndicator == ((data[1]/64)%2 == 1) && th.SectionLength == uint16(data[1]%4)*256+uint16(data[2])
+//@   modifies nothing
+
+//@ func (th TableHeader) Data() []byte
+//@   props C05 C06
+//@   ensures fresh(result) && len(result) == 3 && result[0] == th.TableID && result[2] == byte(th.SectionLength%256)
+//@   ensures result[1]%4 == byte((th.SectionLength/256)%4) && (result[1]/16)%4 == 3 && (result[1] >= 128) == th.SectionSyntaxIndicator && ((result[1]/64)%2 == 1) == th.PrivateIndicator
+//@   modifies nothing
+
+// lemmaTableHeaderRoundTrip: decoding an encoded table header gives it back (section_length is a 10-bit field).
+func lemmaTableHeaderRoundTrip(th TableHeader) bool {
+	d, err := TableHeaderFromBytes(th.Data())
+	return err == nil && d.TableID == th.TableID && d.SectionSyntaxIndicator == th.SectionSyntaxIndicator &&
+		d.PrivateIndicator == th.PrivateIndicator && d.SectionLength == th.SectionLength%1024
+}
+
+//@ func lemmaTableHeaderRoundTrip(th TableHeader) bool
+//@   props C06
+//@   ensures result
 //@   modifies nothing
 
 //@ func (p pat) NumPrograms() int
